@@ -179,7 +179,7 @@ fn node_write_leaf_layout() {
 }
 
 // ---- the code's own reader inverts the writer (decode(encode(n)) == n)
-// @ob props=C01,C15 tier=parked cap=400 fns=Page::write_node,Node::from_page,Leaf::from_leaf,Page::leaf_elements,LeafElement::key,LeafElement::value,BucketMeta::from bound="same 3-entry leaf node, all bytes symbolic" unwind=17
+// @ob props=C01,C15 tier=thorough cap=1200 mem=20 fns=Page::write_node,Node::from_page,Leaf::from_leaf,Page::leaf_elements,LeafElement::key,LeafElement::value,BucketMeta::from bound="same 3-entry leaf node, all bytes symbolic" unwind=17
 #[kani::proof]
 #[kani::unwind(17)]
 fn node_write_leaf_decode() {
@@ -279,7 +279,7 @@ fn one_entry_node<'a>(k0: &'a [u8; 2], v0: &'a [u8; 1]) -> Node<'a> {
 
 // ---- C05-Ob3: Node::write frees the old run (pending, not reusable), takes a fresh run, records it, and the
 //      dirty page carries the node
-// @ob props=C05,C02,C10,C01 tier=quick cap=400 fns=Node::write,Node::allocate,Node::free_page,TxFreelist::free,TxFreelist::allocate,Page::write_node bound="one-entry leaf backed by run (7, 2 pages); tx id 9; high-water mark 20; empty free set; symbolic key / value bytes" unwind=9
+// @ob props=C05,C02 tier=quick cap=300 fns=Node::write,Node::allocate,Node::free_page,TxFreelist::free,TxFreelist::allocate,Page::write_node bound="one-entry leaf backed by run (7, 2 pages); tx id 9; high-water mark 20; empty free set; symbolic key / value bytes" unwind=9
 #[kani::proof]
 #[kani::unwind(9)]
 fn node_write_reallocates() {
@@ -506,7 +506,7 @@ fn piece_is(n: &Node, k: &[[u8; 16]; 6], from: usize, cnt: usize) -> bool {
 
 // ---- C01 / C05: Node::split: 6 entries of 40 bytes on 128-byte pages are cut where the running size passes half a
 //      page, every piece keeps two entries, order and content are preserved, the pieces are registered with the bucket
-// @ob props=C01,C05,C16 tier=quick cap=600 mem=6 fns=Node::split,Node::size,NodeData::size,NodeData::split_at,InnerBucket::new_node,Node::with_data bound="branch node, 6 entries with 16-byte keys (first byte fixes the order, 15 symbolic bytes each), page size 128: three pieces of two" unwind=8
+// @ob props=C05,C16 tier=quick cap=600 mem=5 fns=Node::split,Node::size,NodeData::size,NodeData::split_at,InnerBucket::new_node,Node::with_data bound="branch node, 6 entries with 16-byte keys (first byte fixes the order, 15 symbolic bytes each), page size 128: three pieces of two" unwind=8
 #[kani::proof]
 #[kani::unwind(8)]
 fn node_split_branch_three_pieces() {
@@ -533,7 +533,7 @@ fn node_split_branch_three_pieces() {
     std::mem::forget(ib);
 }
 
-// @ob props=C01,C05,C16 tier=quick cap=600 mem=6 fns=Node::split,Node::size,NodeData::size bound="branch node, 6 entries with 16-byte keys (280 bytes) on 512-byte pages, and 4 such entries on 128-byte pages: not split" unwind=8
+// @ob props=C05,C16 tier=quick cap=300 fns=Node::split,Node::size,NodeData::size bound="branch node, 6 entries with 16-byte keys (280 bytes) on 512-byte pages, and 4 such entries on 128-byte pages: not split" unwind=8
 #[kani::proof]
 #[kani::unwind(8)]
 fn node_split_branch_not_needed() {
@@ -553,7 +553,7 @@ fn node_split_branch_not_needed() {
 
 // ---- C05-Ob3: Node::write through the real TxFreelist: the old run goes to pending (not reusable in this
 //      transaction), a fresh run is taken at the high-water mark, the dirty page carries the node
-// @ob props=C05,C02,C10,C01 tier=quick cap=600 mem=8 fns=Node::write,Node::allocate,Node::free_page,Node::size,TxFreelist::free,TxFreelist::allocate,Freelist::allocate,Page::write_node bound="branch node with 2 entries (16-byte keys, symbolic) backed by run (7, 2 pages); tx id 9; high-water mark 20; empty free set; page size 256" unwind=9
+// @ob props=C05,C10 tier=quick cap=300 fns=Node::write,Node::allocate,Node::free_page,Node::size,TxFreelist::free,TxFreelist::allocate,Freelist::allocate,Page::write_node bound="branch node with 2 entries (16-byte keys, symbolic) backed by run (7, 2 pages); tx id 9; high-water mark 20; empty free set; page size 256" unwind=9
 #[kani::proof]
 #[kani::unwind(9)]
 fn node_write_branch_reallocates() {
@@ -583,7 +583,7 @@ fn node_write_branch_reallocates() {
 
 // ---- C01-Ob5 / C05: Node::spill of a root that fits: written once, its new page id is reported as the new root;
 //      a second spill is a no-op
-// @ob props=C01,C05,C02 tier=quick cap=600 mem=8 fns=Node::spill,Node::split,Node::write,Node::allocate,TxFreelist::allocate,Page::write_node bound="root branch node with 2 entries (16-byte keys, symbolic), no materialised children, backed by page 7; page size 256; high-water mark 20" unwind=9
+// @ob props=C05,C01 tier=quick cap=400 mem=4 fns=Node::spill,Node::split,Node::write,Node::allocate,TxFreelist::allocate,Page::write_node bound="root branch node with 2 entries (16-byte keys, symbolic), no materialised children, backed by page 7; page size 256; high-water mark 20" unwind=9
 #[kani::proof]
 #[kani::unwind(9)]
 fn node_spill_branch_root_fits() {
@@ -612,7 +612,7 @@ fn node_spill_branch_root_fits() {
 // ---- C01-Ob5 / C05: Node::spill of a root that has to be split: every piece is written to its own run, a new
 //      root branch is created over them (first key and page of every piece, in order), written, and reported;
 //      the old page -- and the page of the superseded first write -- are pending, once each
-// @ob props=C01,C05,C02 tier=quick cap=700 mem=10 fns=Node::spill,Node::split,Node::write,Node::allocate,Branch::from_node,InnerBucket::new_node,TxFreelist::allocate,TxFreelist::free,Page::write_node bound="root branch node with 5 entries (16-byte keys, symbolic), no materialised children, backed by page 7; page size 128; high-water mark 20: two pieces (the second spans two pages) and a new root" unwind=9
+// @ob props=C05,C01 tier=thorough cap=1500 mem=24 fns=Node::spill,Node::split,Node::write,Node::allocate,Branch::from_node,InnerBucket::new_node,TxFreelist::allocate,TxFreelist::free,Page::write_node bound="root branch node with 5 entries (16-byte keys, symbolic), no materialised children, backed by page 7; page size 128; high-water mark 20: two pieces (the second spans two pages) and a new root" unwind=9
 #[kani::proof]
 #[kani::unwind(9)]
 fn node_spill_branch_root_splits() {
@@ -748,13 +748,13 @@ fn split_leaf_case(vlen: usize, ps: u64, exp_pieces: usize) {
     std::mem::forget(node);
     std::mem::forget(ib);
 }
-// @ob props=C01,C05,C16 tier=quick cap=600 mem=6 fns=Node::split,Node::size,NodeData::size,Leaf::size,NodeData::split_at,InnerBucket::new_node,Node::with_data bound="leaf node, 6 entries of 2-byte key + 50-byte value (84 bytes each; key tail and value bytes symbolic), page size 256: three pieces of two" unwind=8
+// @ob props=C01,C16 tier=quick cap=700 mem=6 fns=Node::split,Node::size,NodeData::size,Leaf::size,NodeData::split_at,InnerBucket::new_node,Node::with_data bound="leaf node, 6 entries of 2-byte key + 50-byte value (84 bytes each; key tail and value bytes symbolic), page size 256: three pieces of two" unwind=8
 #[kani::proof]
 #[kani::unwind(8)]
 fn node_split_leaf_three_pieces() {
     split_leaf_case(50, 256, 3);
 }
-// @ob props=C01,C05,C16 tier=quick cap=600 mem=6 fns=Node::split,Node::size,NodeData::size,Leaf::size bound="leaf node, 6 entries of 2-byte key + 2-byte value (36 bytes each, 256 with the header... 40 + 216), page size 512: fits, not split" unwind=8
+// @ob props=C01,C16 tier=quick cap=300 fns=Node::split,Node::size,NodeData::size,Leaf::size bound="leaf node, 6 entries of 2-byte key + 2-byte value (36 bytes each, 256 with the header... 40 + 216), page size 512: fits, not split" unwind=8
 #[kani::proof]
 #[kani::unwind(8)]
 fn node_split_leaf_fits() {
